@@ -4,12 +4,15 @@
    with the operators of Duration.tla.  The checker is a monitor: one line per step, every
    rejected line is collected in `bad` with a signature `key` and what the model expected.
 
-   "fmt" line   cell (mixed-radix tuple), style, oor (harness: not an int64), panic,
+   "fmt" line   cell (mixed-radix tuple), style, env (name of the process environment the call was
+                made in, one of Envs), oor (harness: not an int64), panic,
                 syms (the returned text as symbols), back (library parser on that text, limbs)
        accepted iff  oor = ~InRange(cell), and for cells in range: no panic, the text denotes the
        cell under the library grammar of the model (ParseSyms .. LibUnits), and the library's own
-       parser returned the cell.                      -> "formatter total and invertible"
-   "parse" line syms (input as symbols), lib / std (results of the package parser and of
+       parser returned the cell - in EVERY environment alike: the judgement does not look at env
+       (the text is a function of the duration and the style only; Duration!EnvFree).
+                                                      -> "formatter total and invertible"
+   "parse" line env, syms (input as symbols), lib / std (results of the package parser and of
                 time.ParseDuration as limbs), panic
        accepted iff  lib = ParseSyms(syms, LibUnits).  A line whose std differs from
        ParseSyms(syms, StdUnits) is a defect of the *model* (key "spec:std"), lines outside the
@@ -43,7 +46,8 @@ DayTag(s) == IF HasDay(s) THEN "day" ELSE "noday"
 FmtKey(e) ==
     LET c == e.cell
         exp == CellRes(c)
-    IN IF e.oor # ~InRange(c) THEN "spec:range"
+    IN IF e.env \notin Envs THEN "spec:env"
+       ELSE IF e.oor # ~InRange(c) THEN "spec:range"
        ELSE IF e.oor THEN ""
        ELSE IF e.panic THEN "fmt:" \o e.style \o ":panic:need" \o ToString(Need(c, e.style))
        ELSE IF ParseSyms(e.syms, LibUnits) # exp THEN "fmt:" \o e.style \o ":text"
@@ -53,7 +57,8 @@ FmtKey(e) ==
 ParseKey(e) ==
     LET el == ParseSyms(e.syms, LibUnits)
         es == ParseSyms(e.syms, StdUnits)
-    IN IF el.ood \/ es.ood THEN "ood"
+    IN IF e.env \notin Envs THEN "spec:env"
+       ELSE IF el.ood \/ es.ood THEN "ood"
        ELSE IF e.std # es THEN "spec:std"
        ELSE IF e.panic THEN "parse:panic:" \o DayTag(e.syms)
        ELSE IF e.lib.ok /\ ~el.ok THEN "parse:accept:" \o DayTag(e.syms)
@@ -144,5 +149,6 @@ Missing   == Cardinality((Cells \X Styles) \ SeenCells)
 \* evaluated in every state; prints the verdict once the whole log is consumed
 Done == i <= Len(TLog) \/ /\ PrintT("@@bad " \o ToJson(SetToSeq(bad)))
                           /\ PrintT("@@ood " \o ToJson(SetToSeq(ood)))
-                          /\ PrintT("@@cover " \o ToJson([cells |-> Cardinality(Cells \X Styles), missing |-> Missing]))
+                          /\ PrintT("@@cover " \o ToJson([cells |-> Cardinality(Cells \X Styles), missing |-> Missing,
+                                                           envs |-> {TLog[j].env : j \in {x \in 1..Len(TLog) : TLog[x].op \in {"fmt", "parse"}}}]))
 =============================================================================
